@@ -153,7 +153,7 @@ def descTextOK (indentLen : Nat) (d : String) : Bool :=
    else minIndentZero lines)
 
 def descOKT (indentLen : Nat) (d : Option String) : Bool :=
-  match d with | some x => descTextOK indentLen x | none => true
+  match d with | some x => x.isEmpty || descTextOK indentLen x | none => true
 
 def argOKT (s : SchemaD) (indentLen : Nat) (a : ArgD) : Bool :=
   nameOK a.name && tyOK a.type && descOKT indentLen a.desc &&
